@@ -55,7 +55,7 @@ fn trampoline(v: &mut Vec<u8>, here: u32, c: u8, r: u8) {
     emit(v, Insn::Rte);
 }
 
-fn arith(e: &mut Ent) -> Insn {
+pub fn arith(e: &mut Ent) -> Insn {
     let r = |e: &mut Ent| e.below(5) as u8; // ER0-ER4 (ER5 loop counter, ER6 trampoline scratch, ER7 SP)
     match e.below(9) {
         0 => Insn::MovImm { sz: Sz::L, imm: e.val32(), d: r(e) },
